@@ -258,6 +258,15 @@ Section Statements.
     2 ^ height K V (root K V t) <= (nitems K V t + 1) ^ 2.
   Proof. destruct TO as (H1 & H2 & H3 & H4). apply inv_observations; assumption. Qed.
 
+  (* the descent of Tree_Get / Tree_Mem / Tree_Set / Tree_Rem visits at most 2*log2(n+1) nodes (integer form);
+     the fix-up loops recurse on the path it leaves *)
+  Theorem search_depth_total : forall t k x p, rb_inv K V cmp t ->
+    descend K V cmp (root K V t) k [] = (x, p) -> 2 ^ length p <= (nitems K V t + 1) ^ 2.
+  Proof.
+    intros t k x p (Hs & Hb & Hn) Hd. rewrite Hn. unfold abs. rewrite <- size_inorder.
+    eapply rb_search_depth; eauto.
+  Qed.
+
   (* after ANY history: the observations of the tree are those of the ordered map *)
   Theorem history_observations_total : forall ops,
     let t := t_run K V cmp ops t0 in
